@@ -287,7 +287,19 @@ func ruleC08R2(r *Run) {
 				continue
 			}
 			pred := ph.Block().Preds[i]
-			if !(strings.HasPrefix(p.expr(er), "next(range($actions))#2") && holds(p.facts(pred.Instrs[len(pred.Instrs)-1]), "next(range($actions))#1", "==", `""`)) {
+			pf := p.facts(pred.Instrs[len(pred.Instrs)-1])
+			if iff, isIf := pred.Instrs[len(pred.Instrs)-1].(*ssa.If); isIf && pred.Succs[0] != pred.Succs[1] {
+				pf = append(append([]rel{}, pf...), p.relOf(guard{Cond: iff.Cond, Pol: pred.Succs[0] == ph.Block()}))
+			}
+			// … or the map looked up directly: v, ok := actions[""] under ok
+			if ex, isEx := er.(*ssa.Extract); isEx && ex.Index == 0 {
+				if lk, isLk := ex.Tuple.(*ssa.Lookup); isLk && lk.CommaOk && p.expr(lk.X) == "$actions" {
+					if k, isC := constString(p.resolve(lk.Index)); isC && k == "" && holds(pf, p.expr(lk)+"#1", "==", "true") {
+						continue
+					}
+				}
+			}
+			if !(strings.HasPrefix(p.expr(er), "next(range($actions))#2") && holds(pf, "next(range($actions))#1", "==", `""`)) {
 				okC = false
 			}
 		}
@@ -364,28 +376,6 @@ func ruleC08R3(r *Run) {
 		r.Undecided("anchor:runAction$1", ra.Pos(), "anchor unresolved: the deferred closure of runAction")
 		return
 	}
-	var captures []string
-	for _, cs := range p.calls(ra) {
-		if d, ok := cs.Instr.(*ssa.Defer); ok {
-			if mc, ok := d.Common().Value.(*ssa.MakeClosure); ok && mc.Fn == ssa.Value(cl) {
-				for _, a := range d.Common().Args {
-					captures = append(captures, p.expr(a))
-				}
-				// evaluated before the action
-				for _, a := range p.calls(ra) {
-					if strings.HasPrefix(a.Key, "dyn:") {
-						okCap := len(captures) > 0
-						for _, c := range captures {
-							if c != "$t.draws" && c != "invoke:bitStream.drawn($t.s)" {
-								okCap = false
-							}
-						}
-						r.Check("runAction#captured-before", d.Pos(), dominates(d, a.Instr) && okCap, "draw counter / stream position are captured before the action runs ("+strings.Join(captures, ", ")+")", "the values compared later are not the draw counter / stream position captured before the action ("+strings.Join(captures, ", ")+")")
-					}
-				}
-			}
-		}
-	}
 	n := 0
 	for _, b := range p.body(cl) {
 		for _, in := range b.Instrs {
@@ -398,6 +388,7 @@ func ruleC08R3(r *Run) {
 				n++
 				// the value is a conjunction of "counter unchanged since the action started" comparisons
 				nCmp, okLeaves := 0, true
+				var befores []ssa.Value
 				seen := map[ssa.Value]bool{}
 				var walk func(v ssa.Value, d int)
 				walk = func(v ssa.Value, d int) {
@@ -416,8 +407,9 @@ func ruleC08R3(r *Run) {
 							okLeaves = false // a constant true edge would make skipped unconditional
 						}
 					case *ssa.BinOp:
-						if p.isEq(x, "$t.draws", "$draws") || p.isEq(x, "invoke:bitStream.drawn($t.s)", "$drawn") {
+						if _, bef, ok := runActionCmp(p, x, cl, ra); ok {
 							nCmp++
+							befores = append(befores, bef)
 						} else {
 							okLeaves = false
 						}
@@ -426,6 +418,21 @@ func ruleC08R3(r *Run) {
 					}
 				}
 				walk(st.Val, 0)
+				// what "before" means: every compared value was computed in runAction before the action was called
+				for _, a := range p.calls(ra) {
+					if !strings.HasPrefix(a.Key, "dyn:") {
+						continue
+					}
+					okBefore := len(befores) > 0
+					var descs []string
+					for _, bv := range befores {
+						descs = append(descs, p.expr(bv))
+						if bi, isIn := bv.(ssa.Instruction); !isIn || !dominates(bi, a.Instr) {
+							okBefore = false
+						}
+					}
+					r.Check("runAction#captured-before", a.Instr.Pos(), okBefore, "draw counter / stream position are captured before the action runs ("+strings.Join(descs, ", ")+")", "the values compared later are not the draw counter / stream position captured before the action ("+strings.Join(descs, ", ")+")")
+				}
 				okV := nCmp >= 1 && okLeaves && holdsPrefix(p.facts(st), "assert<invalidData>(builtin:recover()),ok#1", "true")
 				r.Check("runAction#skipped", st.Pos(), okV, "skipped = (nothing drawn since the action started), only on the invalidData edge", "skipped is set to "+p.expr(st.Val)+" under "+factsStr(p.facts(st))+": an action that drew values can be treated as never started (or vice versa)")
 			case 0: // the 'invalid' result of runAction
@@ -728,4 +735,63 @@ func repeatKeysSorted(p *Program, rep *ssa.Function) (token.Pos, bool) {
 		}
 	}
 	return pos, false
+}
+
+// runActionCmp: x compares a counter as it is now (read inside runAction's deferred closure cl) with the same
+// counter as it was before the action: a parameter of cl bound at the defer statement, or a value computed in
+// runAction itself (captured variable). kind is "draws" (t.draws) or "drawn" (t.s.drawn()); before is the value
+// computed in runAction (the defer argument or the captured value).
+func runActionCmp(p *Program, x *ssa.BinOp, cl, ra *ssa.Function) (kind string, before ssa.Value, ok bool) {
+	if x.Op != token.EQL {
+		return "", nil, false
+	}
+	kindOf := func(v ssa.Value) string {
+		switch y := p.resolve(v).(type) {
+		case *ssa.Call:
+			if p.calleeKey(y.Common()) == "invoke:bitStream.drawn" && p.expr(y) == "invoke:bitStream.drawn($t.s)" {
+				return "drawn"
+			}
+		case *ssa.UnOp:
+			if fa, isFA := y.X.(*ssa.FieldAddr); isFA && y.Op == token.MUL && fieldAddrName(fa) == "draws" && p.expr(y) == "$t.draws" {
+				return "draws"
+			}
+		}
+		return ""
+	}
+	parentOf := func(v ssa.Value) *ssa.Function {
+		if in, isIn := p.resolve(v).(ssa.Instruction); isIn {
+			return in.Parent()
+		}
+		return nil
+	}
+	for _, ab := range [][2]ssa.Value{{x.X, x.Y}, {x.Y, x.X}} {
+		now, bef := ab[0], ab[1]
+		k := kindOf(now)
+		if k == "" || parentOf(now) != cl {
+			continue
+		}
+		rb := p.resolve(bef)
+		if par, isPar := rb.(*ssa.Parameter); isPar && par.Parent() == cl {
+			// bound at the defer statement
+			for _, cs := range p.calls(ra) {
+				d, isDefer := cs.Instr.(*ssa.Defer)
+				if !isDefer {
+					continue
+				}
+				if mc, isMC := d.Common().Value.(*ssa.MakeClosure); !isMC || mc.Fn != ssa.Value(cl) {
+					continue
+				}
+				for i, q := range cl.Params {
+					if q == par && i < len(d.Common().Args) && kindOf(d.Common().Args[i]) == k {
+						return k, p.resolve(d.Common().Args[i]), true
+					}
+				}
+			}
+			continue
+		}
+		if kindOf(bef) == k && parentOf(bef) == ra {
+			return k, rb, true
+		}
+	}
+	return "", nil, false
 }
